@@ -57,6 +57,11 @@ fn apply_naive(cur: &[Ch], batch: &[(usize, usize, String)]) -> Vec<Ch> {
         p = *e;
     }
     out.extend_from_slice(&cur[p..]);
+    // `resolve_edits` forces the first map entry to 0: deleted text at the very start attaches to the first
+    // character, whose image then starts at 0 for good (also when later batches insert text before it)
+    if let Some(first) = out.first_mut() {
+        if let Some((_, e)) = first.prov { first.prov = Some((0, e)); }
+    }
     out
 }
 
@@ -241,7 +246,7 @@ boundaries of the current text and leaving it non-empty; non-trivial = at least 
             for (i, c) in cur.iter().enumerate() {
                 if let Some((s, e)) = c.prov {
                     let next = off + c.c.len_utf8();
-                    let start_ok = m2o[off] == s || off == 0 && m2o[off] == 0;
+                    let start_ok = m2o[off] == s;
                     let end_ok = if c.del_after { m2o[next] >= e } else { m2o[next] == e };
                     if !start_ok || !end_ok {
                         run.fail(idx, "c08:unreplaced", &format!("unreplaced character {:?} (original bytes {}..{}) is mapped to {}..{}", c.c, s, e, m2o[off], m2o[next]));
